@@ -56,6 +56,13 @@
 (*   allow[ip] what the statement permits: a refusal needs a ban whose count reached a threshold  *)
 (*   blob[ip]  the operator's latest blacklist order, per entry form                               *)
 (*   adm[ip]   clock values of admitted anonymous registrations                                   *)
+(*   relTot    failures that were counted in failure records released since (by a success or by    *)
+(*             a clean-up that found the window empty), capped at PermAt.  A released record's       *)
+(*             count belongs to nobody: the next record - of ANY address - starts at zero.  The      *)
+(*             variable makes histories that differ only in what was released distinct states, so    *)
+(*             that "k addresses fail and succeed, then a fresh address fails" is generated          *)
+(*             (EmitActs "inherit": queries of an address that would be over PermAt had it           *)
+(*             inherited the released counts).                                                        *)
 (* Violations are accumulated in `viol`, deviations of the code in `dev`; the as-is               *)
 (* configurations (Fixed = {}) check "violation => a listed deviation happened", the repaired     *)
 (* design (Fixed = {"unban", "unbl", "order", "shadow"}) checks viol = {} and dev = {} outright:  *)
@@ -82,6 +89,7 @@ CONSTANTS IPs,        \* addresses (their state is disjoint in the code: separat
           EmitActs,   \* behaviour generation: print the history after every step whose action is in
                       \* this set ("dev": every step in which a deviation or a violation is recorded;
                       \* "mixed": every Query made while an expired and a live blacklist entry coexist;
+                      \* "inherit": see relTot;
                       \* "end": every step that brings the history to length MaxHist); {} = no output
           MaxHist     \* bound on the length of a history (generation / simulation)
 
@@ -93,11 +101,12 @@ VARIABLES clock,
           bucket,                \* token bucket of anonymous registrations
           pc, hs,                \* handshake processes (goroutines inside HandleHandshake)
           pf, ptot, oblig, allow, blob, adm, viol, dev,   \* ghosts
+          relTot,                \* ghost: failures counted in records that were released since (success, emptied by a clean-up)
           hist
 vars == <<clock, fails, total, ban, pendUnban, cpend, bl, wl, pendUnbl, bucket, pc, hs,
-          pf, ptot, oblig, allow, blob, adm, viol, dev, hist>>
+          pf, ptot, relTot, oblig, allow, blob, adm, viol, dev, hist>>
 view == <<clock, fails, total, ban, pendUnban, cpend, bl, wl, pendUnbl, bucket, pc, hs,
-          pf, ptot, oblig, allow, blob, adm, viol, dev>>
+          pf, ptot, relTot, oblig, allow, blob, adm, viol, dev>>
 
 Max2(a, b) == IF a >= b THEN a ELSE b
 Min2(a, b) == IF a <= b THEN a ELSE b
@@ -121,6 +130,12 @@ NoEntries == [f \in Forms |-> None]
 NoWl      == [f \in Forms |-> FALSE]
 
 InWin(s) == SelectSeq(s, LAMBDA t : clock - t < Win)       \* cleanupOldFailures
+\* failures counted in the records a clean-up pass finds empty (and releases)
+RECURSIVE RelSum(_)
+RelSum(S) == IF S = {} THEN 0
+             ELSE LET x == CHOOSE y \in S : TRUE
+                  IN (IF InWin(fails[x]) = <<>> THEN total[x] ELSE 0) + RelSum(S \ {x})
+Released == RelSum(IPs)
 
 NoBucket == [has |-> FALSE, tok |-> 0, last |-> 0]
 \* TokenBucket.Take(1) at the current clock (a missing bucket is created full)
@@ -136,7 +151,7 @@ Init == /\ clock = 0
         /\ bl = [i \in IPs |-> NoEntries] /\ wl = [i \in IPs |-> NoWl] /\ pendUnbl = [i \in IPs |-> 0]
         /\ bucket = [i \in IPs |-> NoBucket]
         /\ pc = [p \in Procs |-> "idle"] /\ hs = [p \in Procs |-> Idle] 
-        /\ pf = [i \in IPs |-> <<>>] /\ ptot = [i \in IPs |-> 0]
+        /\ pf = [i \in IPs |-> <<>>] /\ ptot = [i \in IPs |-> 0] /\ relTot = 0
         /\ oblig = [i \in IPs |-> None] /\ allow = [i \in IPs |-> None] /\ blob = [i \in IPs |-> NoEntries]
         /\ adm = [i \in IPs |-> <<>>] /\ viol = {} /\ dev = {}
         /\ hist = <<>>
@@ -151,6 +166,10 @@ Out == IF EmitActs = {} THEN TRUE
        ELSE IF \/ hist'[Len(hist')].a \in EmitActs
                \/ ("dev" \in EmitActs /\ (dev' # dev \/ viol' # viol))
                \/ ("end" \in EmitActs /\ Len(hist') = MaxHist)
+               \/ ("inherit" \in EmitActs /\ hist'[Len(hist')].a = "Query"    \* a query of an address that would be over PermAt
+                     /\ LET i == hist'[Len(hist')].ip                          \* had its record inherited the released counts
+                        IN total[i] > 0 /\ ban[i].k = "none" /\ total[i] + relTot >= PermAt)    \* (and is not banned)
+               \/ ("fault" \in EmitActs /\ "fault" \in DOMAIN hist'[Len(hist')])     \* a step made under a storage fault
                \/ ("mixed" \in EmitActs /\ hist'[Len(hist')].a = "Query"      \* a query while an expired and a live entry coexist
                      /\ \E i \in IPs : (\E f \in Forms : Expired(bl[i][f])) /\ (\E g \in Forms : Live(bl[i][g])))
             THEN PrintT("BEH " \o ToJson([c |-> Cfg, s |-> hist']))
@@ -214,7 +233,7 @@ HsGate(p, i, kind) ==
            ELSE pc' = pc /\ hs' = hs
         /\ Log([a |-> "Hs", p |-> p, ip |-> i, kind |-> kind, res |-> res])
   /\ dev' = dev \cup DevShadow(i)
-  /\ UNCHANGED <<cpend, clock, fails, total, ban, bl, wl, pf, ptot, oblig, allow, blob>>
+  /\ UNCHANGED <<cpend, clock, fails, total, ban, bl, wl, pf, ptot, relTot, oblig, allow, blob>>
 
 \* what the statement demands after a failing handshake that saw cnt failures in the window / tot in total
 Demand(cnt, tot, rc) == IF tot >= PermAt THEN Perm ELSE IF cnt >= Threshold THEN Temp(rc + Ban) ELSE None
@@ -232,7 +251,7 @@ HsCred(p) ==
               ntot == ptot[i] + 1
           IN /\ total[i] < MaxTotal
              /\ fails' = [fails EXCEPT ![i] = fl] /\ total' = [total EXCEPT ![i] = tot]
-             /\ pf' = [pf EXCEPT ![i] = npf] /\ ptot' = [ptot EXCEPT ![i] = ntot]
+             /\ pf' = [pf EXCEPT ![i] = npf] /\ ptot' = [ptot EXCEPT ![i] = ntot] /\ relTot' = relTot
              /\ IF dec = "none"
                 THEN /\ pc' = [pc EXCEPT ![p] = "idle"] /\ hs' = [hs EXCEPT ![p] = Idle]
                      /\ oblig' = [oblig EXCEPT ![i] = Stronger(@, Demand(cnt, ntot, clock))]   \* returns without banning
@@ -244,6 +263,7 @@ HsCred(p) ==
      ELSE \* RecordSuccess ("Good": challenge-response passed; "Anon"/"Anon2": new anonymous client registered)
           /\ fails' = [fails EXCEPT ![i] = <<>>] /\ total' = [total EXCEPT ![i] = 0]
           /\ pf' = [pf EXCEPT ![i] = <<>>] /\ ptot' = [ptot EXCEPT ![i] = 0]
+          /\ relTot' = Min2(relTot + total[i], PermAt)          \* the record (if any) is released
           /\ pc' = [pc EXCEPT ![p] = "idle"] /\ hs' = [hs EXCEPT ![p] = Idle]
           /\ UNCHANGED <<cpend, oblig>>
           /\ Log([a |-> "Cred", p |-> p, res |-> "ok"])
@@ -261,7 +281,7 @@ HsBan(p) ==   \* banIP under banMu
         /\ oblig' = [oblig EXCEPT ![i] = Stronger(@, Demand(hs[p].pcnt, hs[p].ptot, hs[p].rc))]
         /\ pc' = [pc EXCEPT ![p] = "idle"] /\ hs' = [hs EXCEPT ![p] = Idle]
         /\ Log([a |-> "Ban", p |-> p, res |-> "fail"])
-  /\ UNCHANGED <<clock, fails, total, pendUnban, cpend, bl, wl, pendUnbl, bucket, pf, ptot, blob, adm, viol>>
+  /\ UNCHANGED <<clock, fails, total, pendUnban, cpend, bl, wl, pendUnbl, bucket, pf, ptot, relTot, blob, adm, viol>>
 
 \* ---- observation ----------------------------------------------------------------------------
 Query(i) ==
@@ -271,7 +291,7 @@ Query(i) ==
   /\ viol' = viol \cup Judge(i, IF BlRefuses(i) THEN "yes" ELSE "no", IF BanRefuses(i) THEN "yes" ELSE "no")
   /\ Log([a |-> "Query", ip |-> i, bl |-> BlRefuses(i), ban |-> BanRefuses(i)])
   /\ dev' = dev \cup DevShadow(i)
-  /\ UNCHANGED <<cpend, clock, fails, total, ban, bl, wl, bucket, pc, hs, pf, ptot, oblig, allow, blob, adm>>
+  /\ UNCHANGED <<cpend, clock, fails, total, ban, bl, wl, bucket, pc, hs, pf, ptot, relTot, oblig, allow, blob, adm>>
 
 \* ---- the asynchronous removals -------------------------------------------------------------
 AsyncUnban(i) ==
@@ -285,7 +305,7 @@ AsyncUnban(i) ==
           /\ ban' = [ban EXCEPT ![i] = None]
           /\ dev' = IF Live(ban[i]) THEN dev \cup {"unbanLive"} ELSE dev
   /\ Log([a |-> "Unban", ip |-> i, live |-> Live(ban[i])])
-  /\ UNCHANGED <<cpend, clock, fails, total, bl, wl, pendUnbl, bucket, pc, hs, pf, ptot, oblig, allow, blob, adm, viol>>
+  /\ UNCHANGED <<cpend, clock, fails, total, bl, wl, pendUnbl, bucket, pc, hs, pf, ptot, relTot, oblig, allow, blob, adm, viol>>
 
 AsyncUnbl(i) ==
   /\ "Unbl" \in Acts /\ Free /\ pendUnbl[i] > 0
@@ -296,7 +316,7 @@ AsyncUnbl(i) ==
      ELSE /\ bl' = [bl EXCEPT ![i].ip = None]
           /\ dev' = IF Live(bl[i].ip) THEN dev \cup {"unblLive"} ELSE dev
   /\ Log([a |-> "Unbl", ip |-> i, live |-> Live(bl[i].ip)])
-  /\ UNCHANGED <<clock, fails, total, ban, pendUnban, cpend, wl, bucket, pc, hs, pf, ptot, oblig, allow, blob, adm, viol>>
+  /\ UNCHANGED <<clock, fails, total, ban, pendUnban, cpend, wl, bucket, pc, hs, pf, ptot, relTot, oblig, allow, blob, adm, viol>>
 
 \* ---- periodic clean-ups ---------------------------------------------------------------------
 CleanF ==   \* cleanup(), failure records (`mu` section)
@@ -304,6 +324,7 @@ CleanF ==   \* cleanup(), failure records (`mu` section)
   /\ fails' = [i \in IPs |-> InWin(fails[i])]
   /\ total' = [i \in IPs |-> IF InWin(fails[i]) = <<>> THEN 0 ELSE total[i]]      \* an emptied record is deleted
   /\ ptot'  = [i \in IPs |-> IF InWin(pf[i]) = <<>> THEN 0 ELSE ptot[i]]
+  /\ relTot' = Min2(relTot + Released, PermAt)
   /\ Log([a |-> "CleanF"])
   /\ UNCHANGED <<clock, ban, pendUnban, cpend, bl, wl, pendUnbl, bucket, pc, hs, pf, oblig, allow, blob, adm, viol, dev>>
 
@@ -311,13 +332,14 @@ CleanB ==   \* cleanup(), expired bans (`banMu` section): permanent and unexpire
   /\ "CleanB" \in Acts /\ Free
   /\ ban' = [i \in IPs |-> IF Expired(ban[i]) THEN None ELSE ban[i]]
   /\ Log([a |-> "CleanB"])
-  /\ UNCHANGED <<clock, fails, total, pendUnban, cpend, bl, wl, pendUnbl, bucket, pc, hs, pf, ptot, oblig, allow, blob, adm, viol, dev>>
+  /\ UNCHANGED <<clock, fails, total, pendUnban, cpend, bl, wl, pendUnbl, bucket, pc, hs, pf, ptot, relTot, oblig, allow, blob, adm, viol, dev>>
 
 Clean ==    \* one complete cleanup() run: both sections back to back (what the sequential driver can call)
   /\ "Clean" \in Acts /\ Free
   /\ fails' = [i \in IPs |-> InWin(fails[i])]
   /\ total' = [i \in IPs |-> IF InWin(fails[i]) = <<>> THEN 0 ELSE total[i]]
   /\ ptot'  = [i \in IPs |-> IF InWin(pf[i]) = <<>> THEN 0 ELSE ptot[i]]
+  /\ relTot' = Min2(relTot + Released, PermAt)
   /\ ban' = [i \in IPs |-> IF Expired(ban[i]) THEN None ELSE ban[i]]
   /\ Log([a |-> "Clean"])
   /\ UNCHANGED <<clock, pendUnban, cpend, bl, wl, pendUnbl, bucket, pc, hs, pf, oblig, allow, blob, adm, viol, dev>>
@@ -326,44 +348,60 @@ CleanL ==   \* IPManager.cleanup()
   /\ "CleanL" \in Acts /\ Free
   /\ bl' = [i \in IPs |-> [f \in Forms |-> IF Expired(bl[i][f]) THEN None ELSE bl[i][f]]]
   /\ Log([a |-> "CleanL"])
-  /\ UNCHANGED <<clock, fails, total, ban, pendUnban, cpend, wl, pendUnbl, bucket, pc, hs, pf, ptot, oblig, allow, blob, adm, viol, dev>>
+  /\ UNCHANGED <<clock, fails, total, ban, pendUnban, cpend, wl, pendUnbl, bucket, pc, hs, pf, ptot, relTot, oblig, allow, blob, adm, viol, dev>>
 
 \* ---- operator actions -----------------------------------------------------------------------
 MUnban(i) ==   \* UnbanIP called by an operator: lifts the ban and, legitimately, the obligation
   /\ "MUnban" \in Acts /\ Free /\ ban[i].k # "none"
   /\ ban' = [ban EXCEPT ![i] = None] /\ oblig' = [oblig EXCEPT ![i] = None]
   /\ Log([a |-> "MUnban", ip |-> i])
-  /\ UNCHANGED <<clock, fails, total, pendUnban, cpend, bl, wl, pendUnbl, bucket, pc, hs, pf, ptot, allow, blob, adm, viol, dev>>
+  /\ UNCHANGED <<clock, fails, total, pendUnban, cpend, bl, wl, pendUnbl, bucket, pc, hs, pf, ptot, relTot, allow, blob, adm, viol, dev>>
 
 Blk(i, kind, f) ==   \* AddToBlacklist(entry, duration | 0): the latest order for an entry replaces the previous one
   /\ kind \in Acts /\ Free
   /\ LET e == IF kind = "BlkP" THEN Perm ELSE Temp(clock + BlDur)
      IN bl' = [bl EXCEPT ![i][f] = e] /\ blob' = [blob EXCEPT ![i][f] = e]
   /\ Log([a |-> kind, ip |-> i, form |-> f])
-  /\ UNCHANGED <<clock, fails, total, ban, pendUnban, cpend, wl, pendUnbl, bucket, pc, hs, pf, ptot, oblig, allow, adm, viol, dev>>
+  /\ UNCHANGED <<clock, fails, total, ban, pendUnban, cpend, wl, pendUnbl, bucket, pc, hs, pf, ptot, relTot, oblig, allow, adm, viol, dev>>
+
+\* the weaker of two orders: what is demanded when it is unknown which of them is in force
+Meet(a, b) == IF a.k = "none" \/ b.k = "none" THEN None
+              ELSE IF a.k = "perm" THEN b ELSE IF b.k = "perm" THEN a
+              ELSE Temp(Min2(a.until, b.until))
+
+BlkF(i, kind, f) ==   \* AddToBlacklist while the storage write fails (Set / AppendToList error)
+  \* The code keeps the new entry in memory and only logs the storage error.  What the statement can
+  \* demand of a failed update is the weaker of the previous and the new order - in particular a
+  \* failed update never lifts an entry that was in force.  (Configurations with BlkF have no Reload:
+  \* what storage holds after a failed write is outside the model.)
+  /\ "BlkF" \in Acts /\ kind \in Acts /\ Free
+  /\ LET e == IF kind = "BlkP" THEN Perm ELSE Temp(clock + BlDur)
+     IN bl' = [bl EXCEPT ![i][f] = e] /\ blob' = [blob EXCEPT ![i][f] = Meet(@, e)]
+  /\ Log([a |-> kind, ip |-> i, form |-> f, fault |-> TRUE])
+  /\ UNCHANGED <<clock, fails, total, ban, pendUnban, cpend, wl, pendUnbl, bucket, pc, hs, pf, ptot, relTot, oblig, allow, adm, viol, dev>>
 
 MUnbl(i, f) ==   \* RemoveFromBlacklist(entry) called by an operator
   /\ "MUnbl" \in Acts /\ Free /\ bl[i][f].k # "none"
   /\ bl' = [bl EXCEPT ![i][f] = None] /\ blob' = [blob EXCEPT ![i][f] = None]
   /\ Log([a |-> "MUnbl", ip |-> i, form |-> f])
-  /\ UNCHANGED <<clock, fails, total, ban, pendUnban, cpend, wl, pendUnbl, bucket, pc, hs, pf, ptot, oblig, allow, adm, viol, dev>>
+  /\ UNCHANGED <<clock, fails, total, ban, pendUnban, cpend, wl, pendUnbl, bucket, pc, hs, pf, ptot, relTot, oblig, allow, adm, viol, dev>>
 
 SetWl(i, on, f) ==
   /\ (IF on THEN "Wl" ELSE "UnWl") \in Acts /\ Free /\ wl[i][f] # on
   /\ wl' = [wl EXCEPT ![i][f] = on]
   /\ Log([a |-> IF on THEN "Wl" ELSE "UnWl", ip |-> i, form |-> f])
-  /\ UNCHANGED <<clock, fails, total, ban, pendUnban, cpend, bl, pendUnbl, bucket, pc, hs, pf, ptot, oblig, allow, blob, adm, viol, dev>>
+  /\ UNCHANGED <<clock, fails, total, ban, pendUnban, cpend, bl, pendUnbl, bucket, pc, hs, pf, ptot, relTot, oblig, allow, blob, adm, viol, dev>>
 
 Other(i, kind) ==   \* an entry that does not cover the address (range elsewhere): nothing changes for it
   /\ kind \in {"BlkO", "WlO"} /\ kind \in Acts /\ Free
   /\ Log([a |-> IF kind = "BlkO" THEN "Blk" ELSE "Wl", ip |-> i, form |-> "other"])
-  /\ UNCHANGED <<clock, fails, total, ban, pendUnban, cpend, bl, wl, pendUnbl, bucket, pc, hs, pf, ptot, oblig, allow, blob, adm, viol, dev>>
+  /\ UNCHANGED <<clock, fails, total, ban, pendUnban, cpend, bl, wl, pendUnbl, bucket, pc, hs, pf, ptot, relTot, oblig, allow, blob, adm, viol, dev>>
 
 Reload ==   \* restart: a fresh IPManager loads the lists from storage (= memory minus expired entries)
   /\ "Reload" \in Acts /\ Free /\ \A i \in IPs : pendUnbl[i] = 0
   /\ bl' = [i \in IPs |-> [f \in Forms |-> IF Live(bl[i][f]) THEN bl[i][f] ELSE None]]
   /\ Log([a |-> "Reload"])
-  /\ UNCHANGED <<clock, fails, total, ban, pendUnban, cpend, wl, pendUnbl, bucket, pc, hs, pf, ptot, oblig, allow, blob, adm, viol, dev>>
+  /\ UNCHANGED <<clock, fails, total, ban, pendUnban, cpend, wl, pendUnbl, bucket, pc, hs, pf, ptot, relTot, oblig, allow, blob, adm, viol, dev>>
 
 \* ---- rate-limiter histories ------------------------------------------------------------------
 IdleTicks == (Burst * 1000 + Refill - 1) \div Refill        \* a whole refill period: burst / rate
@@ -374,7 +412,19 @@ IdleFor ==
   /\ clock' = clock + IdleTicks
   /\ pf' = [i \in IPs |-> SelectSeq(pf[i], LAMBDA t : clock + IdleTicks - t < Win)]
   /\ Log([a |-> "Idle", n |-> IdleTicks])
-  /\ UNCHANGED <<fails, total, ban, pendUnban, cpend, bl, wl, pendUnbl, bucket, pc, hs, ptot, oblig, allow, blob, adm, viol, dev>>
+  /\ UNCHANGED <<fails, total, ban, pendUnban, cpend, bl, wl, pendUnbl, bucket, pc, hs, ptot, relTot, oblig, allow, blob, adm, viol, dev>>
+
+ConcK == Burst + 2
+ConcFirst(i) ==   \* ConcK AllowIP calls AT THE SAME TIME from an address that has no bucket yet
+  \* get-or-create of the bucket is one critical section (double check under the write lock) and Take
+  \* is serialised by the bucket's mutex: however the calls interleave, they share ONE new bucket and
+  \* Burst of them are admitted.  The driver realises the step with a start barrier, for the address
+  \* of the history and for many more fresh addresses.
+  /\ "ConcFirst" \in Acts /\ Free /\ ~bucket[i].has
+  /\ bucket' = [bucket EXCEPT ![i] = [has |-> TRUE, tok |-> (Burst - Min2(Burst, ConcK)) * 1000, last |-> clock]]
+  /\ adm' = [adm EXCEPT ![i] = @ \o [x \in 1..Min2(Burst, ConcK) |-> clock]]
+  /\ Log([a |-> "ConcFirst", ip |-> i, n |-> ConcK, adm |-> Min2(Burst, ConcK)])
+  /\ UNCHANGED <<clock, fails, total, ban, pendUnban, cpend, bl, wl, pendUnbl, pc, hs, pf, ptot, relTot, oblig, allow, blob, viol, dev>>
 
 Flood(i) ==   \* FloodN AllowIP calls back to back (straight at the limiter)
   /\ "Flood" \in Acts /\ Free
@@ -384,7 +434,7 @@ Flood(i) ==   \* FloodN AllowIP calls back to back (straight at the limiter)
      IN /\ bucket' = [bucket EXCEPT ![i] = [has |-> TRUE, tok |-> cur - k * 1000, last |-> clock]]
         /\ adm' = [adm EXCEPT ![i] = @ \o [x \in 1..k |-> clock]]
         /\ Log([a |-> "Flood", ip |-> i, n |-> FloodN, adm |-> k])
-  /\ UNCHANGED <<clock, fails, total, ban, pendUnban, cpend, bl, wl, pendUnbl, pc, hs, pf, ptot, oblig, allow, blob, viol, dev>>
+  /\ UNCHANGED <<clock, fails, total, ban, pendUnban, cpend, bl, wl, pendUnbl, pc, hs, pf, ptot, relTot, oblig, allow, blob, viol, dev>>
 
 FloodHs(i, kind) ==   \* FloodN registration handshakes back to back through HandleHandshake (gates, limiter, RecordSuccess)
   /\ "FloodHs" \in Acts /\ kind \in Acts /\ kind \in RegKinds /\ Quiet
@@ -401,7 +451,8 @@ FloodHs(i, kind) ==   \* FloodN registration handshakes back to back through Han
         /\ IF k > 0     \* every granted registration is a RecordSuccess
            THEN /\ fails' = [fails EXCEPT ![i] = <<>>] /\ total' = [total EXCEPT ![i] = 0]
                 /\ pf' = [pf EXCEPT ![i] = <<>>] /\ ptot' = [ptot EXCEPT ![i] = 0]
-           ELSE UNCHANGED <<fails, total, pf, ptot>>
+                /\ relTot' = Min2(relTot + total[i], PermAt)
+           ELSE UNCHANGED <<fails, total, pf, ptot, relTot>>
         /\ Log([a |-> "FloodHs", ip |-> i, kind |-> kind, n |-> FloodN, adm |-> k,
                 res |-> IF blRef THEN "bl" ELSE IF banRef THEN "ban" ELSE "pass"])
   /\ UNCHANGED <<clock, ban, pendUnban, cpend, bl, wl, pendUnbl, pc, hs, oblig, allow, blob, dev>>
@@ -417,6 +468,7 @@ CleanScan ==
   /\ fails' = [i \in IPs |-> InWin(fails[i])]
   /\ total' = [i \in IPs |-> IF InWin(fails[i]) = <<>> THEN 0 ELSE total[i]]
   /\ ptot'  = [i \in IPs |-> IF InWin(pf[i]) = <<>> THEN 0 ELSE ptot[i]]
+  /\ relTot' = Min2(relTot + Released, PermAt)
   /\ cpend' = [i \in IPs |-> Expired(ban[i])]
   /\ Log([a |-> "CleanScan", n |-> Cardinality({i \in IPs : Expired(ban[i])})])
   /\ UNCHANGED <<clock, ban, pendUnban, bl, wl, pendUnbl, bucket, pc, hs, pf, oblig, allow, blob, adm, viol, dev>>
@@ -427,21 +479,22 @@ CleanDel(i) ==
   /\ ban' = [ban EXCEPT ![i] = None]
   /\ dev' = IF Live(ban[i]) THEN dev \cup {"cleanLive"} ELSE dev
   /\ Log([a |-> "CleanDel", ip |-> i, live |-> Live(ban[i])])
-  /\ UNCHANGED <<clock, fails, total, pendUnban, bl, wl, pendUnbl, bucket, pc, hs, pf, ptot, oblig, allow, blob, adm, viol>>
+  /\ UNCHANGED <<clock, fails, total, pendUnban, bl, wl, pendUnbl, bucket, pc, hs, pf, ptot, relTot, oblig, allow, blob, adm, viol>>
 
 Tick ==
   /\ "Tick" \in Acts /\ Free /\ clock < MaxClock
   /\ clock' = clock + 1
   /\ pf' = [i \in IPs |-> SelectSeq(pf[i], LAMBDA t : clock + 1 - t < Win)]
   /\ Log([a |-> "Tick"])
-  /\ UNCHANGED <<fails, total, ban, pendUnban, cpend, bl, wl, pendUnbl, bucket, pc, hs, ptot, oblig, allow, blob, adm, viol, dev>>
+  /\ UNCHANGED <<fails, total, ban, pendUnban, cpend, bl, wl, pendUnbl, bucket, pc, hs, ptot, relTot, oblig, allow, blob, adm, viol, dev>>
 
 Step == \/ \E p \in Procs : \/ \E i \in IPs, k \in Kinds : HsGate(p, i, k)
                             \/ HsCred(p) \/ HsBan(p)
         \/ \E i \in IPs : \/ Query(i) \/ AsyncUnban(i) \/ AsyncUnbl(i) \/ MUnban(i) \/ Flood(i)
                           \/ Other(i, "BlkO") \/ Other(i, "WlO")
-                          \/ FloodHs(i, "Anon") \/ FloodHs(i, "Anon2") \/ CleanDel(i)
-                          \/ \E f \in BlForms : \/ Blk(i, "Blk", f) \/ Blk(i, "BlkP", f) \/ MUnbl(i, f)
+                          \/ FloodHs(i, "Anon") \/ FloodHs(i, "Anon2") \/ CleanDel(i) \/ ConcFirst(i)
+                          \/ \E f \in BlForms : \/ Blk(i, "Blk", f) \/ Blk(i, "BlkP", f)
+                                                 \/ BlkF(i, "Blk", f) \/ BlkF(i, "BlkP", f) \/ MUnbl(i, f)
                                                \/ SetWl(i, TRUE, f) \/ SetWl(i, FALSE, f)
         \/ CleanF \/ CleanB \/ Clean \/ CleanScan \/ CleanL \/ Reload \/ Tick \/ IdleFor
 Next == Len(hist) < MaxHist /\ Step /\ Out
